@@ -94,7 +94,7 @@ m = {
  "hooks": {
    "guard": "cargo feature verif-hooks (egglog, egglog-bridge, egglog-core-relations, egglog-union-find, egglog-concurrency)",
    "enable": "the simulator crate /verif/sim depends on /repo by path with features=[\"verif-hooks\"]; ./check rebuilds it with cargo build --release --offline before every run",
-   "baseline_off_cmd": "cd /repo && cargo nextest run --workspace --no-fail-fast --test-threads 8 --offline || cargo test --workspace --no-fail-fast --offline",
+   "baseline_off_cmd": "cd /repo && cargo nextest run --workspace --no-fail-fast --tool-config-file pb:/w/lib/nextest.toml --profile pb --test-threads 8 --offline",
    "source_commits": [h.split()[0] for h in hooks][::-1],
    "add_only": True,
  },
